@@ -2,6 +2,7 @@ package sim
 
 import (
 	"fmt"
+	"regexp"
 	"strconv"
 	"strings"
 )
@@ -433,3 +434,16 @@ var ExprThemes = map[string][]string{
 }
 
 var ExprThemeNames = []string{"assignops", "regex", "sort", "encode", "variables", "literals", "snippet", "datetime", "pathtypes", "goccy", "loadshared"}
+
+var commentOpRe = regexp.MustCompile(`(head|line|foot)_comment\s*(\|=|=)?`)
+
+// readsComments: the expression uses a comment operator as a getter, so the
+// text and placement of comments becomes part of the result.
+func readsComments(s string) bool {
+	for _, m := range commentOpRe.FindAllStringSubmatch(s, -1) {
+		if m[2] == "" {
+			return true
+		}
+	}
+	return false
+}
